@@ -815,6 +815,8 @@ class InterpStmts:
                 for tag, s2, payload in self.exec_block(stmt.body, s1):
                     if tag in ("next", "continue"):
                         if ghost_step:
+                            if spec.mode != "set":
+                                s2 = s2.setvar("__done__", done)      # index of the element just processed (ghost)
                             gouts = [o for o in self.exec_block(ghost_step, s2)]
                             if any(o[0] != "next" for o in gouts):
                                 raise Unsupported("ghost_step must not raise/return")
@@ -1523,7 +1525,27 @@ class InterpStmts:
             result = None
         else:
             kd = parse_kind(rk)
-            result = SV(kd, tfresh(kd, "ret_" + f.node.name))
+            if c.get("functional"):
+                # a pure helper abstracted as an uninterpreted function of its (value) arguments: equal arguments give
+                # equal results (callable / record arguments are not part of the key -- stated as an assumption)
+                leaves = []
+                for name in sorted(env):
+                    v = env[name]
+                    v = self.tup_to_sv(v) if isinstance(v, tuple) else v
+                    if isinstance(v, SV):
+                        leaves.extend(core.tleaves(v.tree))
+                    elif isinstance(v, (bool, int, float, str)) or v is None:
+                        leaves.extend(core.tleaves(self.lit(v).tree))
+                self.assumptions_used.add("functional abstraction of %s: its result depends only on its value arguments" % f.qualname)
+                n = [0]
+
+                def mk(srt):
+                    n[0] += 1
+                    fn = self.ufunc("fn_%s_%d" % (f.node.name, n[0]), *([l.sort() for l in leaves] + [srt]))
+                    return fn(*leaves) if leaves else z3.Const("fn_%s_%d" % (f.node.name, n[0]), srt)
+                result = SV(kd, tmap(mk, sort_tree(kd)))
+            else:
+                result = SV(kd, tfresh(kd, "ret_" + f.node.name))
             if kd.tag == "obj" or (kd.tag == "opt" and kd.args[0].tag == "obj"):
                 r = result.tree if kd.tag == "obj" else result.tree[1]
                 s2.pc.append(z3.And(r >= 0, r < s2.nref))
